@@ -6,5 +6,6 @@ CONSTANTS
   OpCap = 2
   ResCap = 2
   ReplyLocksTarget = FALSE
+  SafeCompletion = TRUE
 INVARIANTS Inv_NoPanic Inv_Pairing Inv_PerCallerOrder Inv_NoStuck
 CHECK_DEADLOCK FALSE
